@@ -142,10 +142,16 @@ def simulate(lines, sep, offset_s, copies=1):
     return out, err, dontcare, states, trans
 
 
-def doc_of(lines, sep):
+def doc_of(lines, sep, spacing=0):
+    """spacing: 0 = one blank between code words; 1 = two blanks in every third gap; 2 = a trailing blank on every line
+    (blanks are not code words: they take no frame)"""
     out = ["Scenarist_SCC V1.0", ""]
     for li, (t, words) in enumerate(lines):
-        out.append(tc(t, sep_for(sep, li)) + "\t" + " ".join(words))
+        if spacing == 1:
+            body = "".join(w + ("  " if k % 3 == 1 else " ") for k, w in enumerate(words)).rstrip(" ")
+        else:
+            body = " ".join(words) + (" " if spacing == 2 else "")
+        out.append(tc(t, sep_for(sep, li)) + "\t" + body)
         out.append("")
     return "\n".join(out)
 
@@ -156,11 +162,12 @@ def evaluate(case):
 
     base, sep, doubled, fillers, b1, b2, final, offset = case[:8]
     tworows = bool(case[8]) if len(case) > 8 else False
+    spacing = case[9] if len(case) > 9 else 0
     lines = build(base, sep, doubled, fillers, b1, b2, final, tworows)
     exp, err, dontcare, states, trans = simulate(lines, sep, offset, 2 if tworows else 1)
     if dontcare:
         return None, states, trans, "dontcare"
-    doc = doc_of(lines, sep)
+    doc = doc_of(lines, sep, spacing)
     v = []
     try:
         cs = shared.obj(SCCReader).read(doc, offset=offset)
@@ -271,8 +278,8 @@ def run_shard(d):
             for b1 in bset:
                 for b2 in bset:
                     for final in fset:
-                      for tworows in ((False, True) if fillers in fill_sets[:2] else (False,)):
-                        case = (base, d["sep"], d["doubled"], fillers, b1, b2, final, offset, tworows)
+                      for tworows, spacing in (((False, 0), (True, 0)) + (((False, 1), (False, 2)) if fillers == fill_sets[1] and offset == offsets_for(base)[0] else ()) if fillers in fill_sets[:2] else ((False, 0),)):
+                        case = (base, d["sep"], d["doubled"], fillers, b1, b2, final, offset, tworows, spacing)
                         v, states, trans, outcome = evaluate(case)
                         allstates.update(states)
                         acc.transitions += trans
@@ -280,9 +287,9 @@ def run_shard(d):
                             acc.count("dont_care_programs")
                             continue
                         acc.traces += 1
-                        acc.case(case, True, outcome, {"base_timecode": base, "separator": d["sep"], "doubled": d["doubled"], "filler_words": fillers, "boundaries": [b1, b2], "final": final, "offset_s": offset, "two_non_adjacent_rows_per_caption": tworows})
+                        acc.case(case, True, outcome, {"base_timecode": base, "separator": d["sep"], "doubled": d["doubled"], "filler_words": fillers, "boundaries": [b1, b2], "final": final, "offset_s": offset, "two_non_adjacent_rows_per_caption": tworows, "blank_spacing_variant": spacing})
                         for sig, det in v:
-                            acc.violation(sig + ("/two-rows" if tworows else ""), {"case": list(case)}, det)
+                            acc.violation(sig + ("/two-rows" if tworows else "") + ("/extra-blanks-between-code-words" if spacing else ""), {"case": list(case)}, det)
     res = acc.result()
     res["extra"] = {"state_hashes": sorted(allstates)}
     return res
@@ -301,6 +308,7 @@ def replay(case):
         return shared.replay(reuse_items(), reuse_eval, case["index"], between=reuse_between)
     c = case["case"]
     tw = bool(c[8]) if len(c) > 8 else False
-    c = (tuple(c[0]), c[1], c[2], tuple(c[3]), c[4], c[5], c[6], c[7], tw)
+    sp = c[9] if len(c) > 9 else 0
+    c = (tuple(c[0]), c[1], c[2], tuple(c[3]), c[4], c[5], c[6], c[7], tw, sp)
     v, _, _, _ = evaluate(c)
-    return [{"sig": s + ("/two-rows" if tw else ""), "detail": d} for s, d in (v or [])]
+    return [{"sig": s + ("/two-rows" if tw else "") + ("/extra-blanks-between-code-words" if sp else ""), "detail": d} for s, d in (v or [])]
